@@ -329,6 +329,16 @@ def mask_textline_by_region(baseline, textline, region):
     baseline_is = region_shpl.intersection(baseline_shpl)
     textline_is = region_shpl.intersection(textline_shpl)
 
+    # where an edge of the line runs along the region border, the clipping also leaves stray points and segments; only the proper parts matter
+    if isinstance(textline_is, sg.GeometryCollection):
+        polygons = [geom for geom in textline_is.geoms if isinstance(geom, sg.Polygon)]
+        if polygons:
+            textline_is = sg.MultiPolygon(polygons) if len(polygons) > 1 else polygons[0]
+    if isinstance(baseline_is, sg.GeometryCollection):
+        lines = [geom for geom in baseline_is.geoms if isinstance(geom, sg.LineString)]
+        if lines:
+            baseline_is = sg.MultiLineString(lines) if len(lines) > 1 else lines[0]
+
     if isinstance(textline_is, sg.MultiPolygon):  # this can happen generally with some combinations of layout and line detection
         areas = np.array([poly.area for poly in textline_is.geoms])
         textline_is = textline_is.geoms[np.argmax(areas)]
